@@ -542,7 +542,10 @@ class SymEx:
             elif k == 'return':
                 if st.frames:
                     rv = st.read(self.loc(st, 0), ())
-                    cbody, cfid, dest, target = st.frames.pop()
+                    fr_ = st.frames.pop()
+                    cbody, cfid, dest, target = fr_[:4]
+                    if len(fr_) > 4 and fr_[4] == 'Some':
+                        rv = ('adt', 'std::option::Option', 'Some', ('0',), (rv,))
                     st.body, st.fid = cbody, cfid
                     if dest is not None:
                         st.write(dest[0], dest[1], rv)
@@ -578,6 +581,60 @@ class SymEx:
                 pre = tuple(st.read(a[1][0], a[1][1]) if a[0] == 'mref' else a for a in args)
                 ev = Event('call', site=site, name=name, fn=call.fn, args=args, line=call.line, bb=bb, call=call, pre=pre, frame=st.fid, defp=body.defp)
                 st.events.append(ev)
+                # `cond.then(|| e)`, `cond.then_some(v)`, `opt.map_or(d, |x| e)`: the two cases are followed like an if / match
+                lastn0 = name.split('::')[-1]
+                comb = None
+                if self.inline is not None and len(st.frames) < self.max_inline_depth and 'target' in t and t.get('dest') is not None:
+                    if lastn0 == 'then' and 'bool' in name and len(args) == 2 and strip(args[1])[0] == 'closure' and BODIES.get(strip(args[1])[1]) is not None:
+                        comb = ('then', args[0], strip(args[1]), None)
+                    elif lastn0 == 'then_some' and 'bool' in name and len(args) == 2:
+                        comb = ('then_some', args[0], None, args[1])
+                    elif lastn0 == 'map_or' and 'option::Option' in name and len(args) == 3 and strip(args[2])[0] == 'closure' and BODIES.get(strip(args[2])[1]) is not None:
+                        comb = ('map_or', args[0], strip(args[2]), args[1])
+                if comb is not None:
+                    kind_, scrut, clo_, other_ = comb
+                    dest = self.resolve_lv(st, t['dest'])
+                    ev.dest = dest
+                    ev.inlined = True
+                    none_ = ('adt', 'std::option::Option', 'None', (), ())
+                    cterm = scrut if kind_ != 'map_or' else ('discr', scrut)
+                    if cterm[0] == 'discr' and strip_refs(cterm[1])[0] == 'adt' and adt_discr(strip_refs(cterm[1])) is not None:
+                        cterm = ('const', adt_discr(strip_refs(cterm[1])))
+                    known = None
+                    if cterm[0] == 'const' and isinstance(cterm[1], int):
+                        known = 0 if cterm[1] == 0 else 1
+                    elif cterm in st.decided:
+                        known = 0 if st.decided[cterm] == 0 else 1
+                    # the "no" case: None / the default
+                    if known in (None, 0):
+                        s0 = st.clone() if known is None else st
+                        if known is None:
+                            s0.decided[cterm] = 0
+                            s0.events.append(Event('branch', term=cterm, value=0, bb=bb, line=call.line, args=(0,), frame=st.fid, defp=body.defp))
+                        s0.write(dest[0], dest[1], none_ if kind_ != 'map_or' else other_)
+                        if known is None:
+                            self._go(s0, t['target'])
+                        else:
+                            bb = t['target']
+                            continue
+                    # the "yes" case
+                    if known is None:
+                        st.decided[cterm] = 'else' if kind_ != 'map_or' else 1
+                        st.events.append(Event('branch', term=cterm, value='else' if kind_ != 'map_or' else 1, bb=bb, line=call.line, args=(0,), frame=st.fid, defp=body.defp))
+                    if kind_ == 'then_some':
+                        st.write(dest[0], dest[1], ('adt', 'std::option::Option', 'Some', ('0',), (other_,)))
+                        bb = t['target']
+                        continue
+                    cb_ = BODIES[clo_[1]]
+                    st.frames.append((body, st.fid, dest, t.get('target'), 'Some' if kind_ == 'then' else None))
+                    st.fid = st.next_fid
+                    st.next_fid += 1
+                    st.body = cb_
+                    st.write(self.loc(st, 1), (), ('ref', clo_) if cb_.local_ty(1).startswith('&') else clo_)
+                    if kind_ == 'map_or':
+                        st.write(self.loc(st, 2), (), project(scrut if scrut[0] not in ('ref',) else scrut[1], 'Some.0'))
+                    bb = 0
+                    continue
                 # opt-in inlining: run the callee's body in place (private helpers extracted by a refactoring)
                 if self.inline is not None and len(st.frames) < self.max_inline_depth:
                     cb = BODIES.get(call.callee or '') or BODIES.get(name)
